@@ -312,6 +312,7 @@ def check(run):
         run.violation("R5", mp.where, f"sign classification is not the symmetric three-way split on tol.merge (neg: {lo}; pos: {hi})",
                       key=key_of("C11-R5", "thresholds"))
     _slice_cases(run, ix, rows)
+    _single_classifier(run, ix)
     run.extra["exhaustive"] = True
     return {
         "explanation": "Complete enumeration of the abstract domain {-1,0,1}^3 through a row-wise interpreter of "
@@ -320,6 +321,72 @@ def check(run):
         "symmetric sign thresholds. Decides the case analysis for all meshes and planes; does not decide segment "
         "positions, closedness, area/volume additivity or capping.",
     }
+
+
+def _single_classifier(run, ix):
+    """R9 / R10: the tolerance classification is the only place where faces are selected by plane distance"""
+    from ..provenance import Prov, is_emptiness
+    import re as _re
+    run.rule("R9", "every result of mesh_plane / slice_faces_plane / slice_mesh_plane is computed after the sign classification; only an emptiness test may return before it")
+    run.rule("R10", "no caller pre-selects faces by comparing plane distances without the classifier's tolerance (tol.merge)")
+    n9 = 0
+    for spec in ("trimesh.intersections:mesh_plane", "trimesh.intersections:slice_faces_plane"):
+        f = ix.func(spec)
+        pv = Prov(ix, f)
+        cls = [st for st in f.node.body if isinstance(st, ast.Assign) and isinstance(st.targets[0], ast.Name) and st.targets[0].id == "signs"]
+        if not cls:
+            raise AnalysisError(f"anchor vanished: `signs = ...` in {spec}")
+        cn = [n for st in cls for n in pv.cfg.nodes_of.get(id(st), [])]
+        for r in ast.walk(f.node):
+            if not isinstance(r, ast.Return) or not pv.cfg.nodes_of.get(id(r)):
+                continue
+            n9 += 1
+            rn = pv.cfg.nodes_of[id(r)][0]
+            if any(pv.cfg.dominates(c, rn) for c in cn):
+                run.instance("R9", f.where, f"{f.qualname}: return at line {r.lineno} is dominated by the sign classification", True)
+                continue
+            g = pv.guards(r)
+            ok = any(is_emptiness(x) for x in g)
+            run.instance("R9", f.where, f"{f.qualname}: return before the classification under {g}", ok)
+            if not ok:
+                run.violation("R9", f.where, f"`{f.qualname}` returns at line {r.lineno} under {g or ['no condition']} before the vertices are classified: faces lying in "
+                                             f"the plane (kept or dropped by the coplanar rule) and faces touching it are decided by a shortcut instead",
+                              key=key_of("C11-R9", f.qualname, (g or [''])[-1][:60]))
+    run.floor("returns of the plane routines", n9, 5)
+    # R10: arguments that restrict the face set
+    targets = {"trimesh.intersections.mesh_plane": "local_faces", "trimesh.intersections.slice_faces_plane": "face_index",
+               "trimesh.intersections.slice_mesh_plane": "face_index"}
+    n10 = 0
+    for f in ix.all_functions:
+        calls = [c for c in ast.walk(f.node) if isinstance(c, ast.Call) and isinstance(c.func, (ast.Name, ast.Attribute))]
+        hits = []
+        for c in calls:
+            r = ix.resolve_expr(f.module, c.func)
+            nm = f"{r.module.name}.{r.qualname}" if hasattr(r, "qualname") else None
+            if nm in targets:
+                hits.append((c, nm))
+        if not hits:
+            continue
+        pv = Prov(ix, f)
+        for c, nm in hits:
+            st = pv.stmt_of(c)
+            if st is None or not pv.cfg.nodes_of.get(id(st)):
+                continue
+            n10 += 1
+            kw = next((k for k in c.keywords if k.arg == targets[nm]), None)
+            if kw is None:
+                run.instance("R10", f.where, f"{f.qualname} -> {nm.split('.')[-1]}: every face is classified", True)
+                continue
+            txt = pv.canon(kw.value, st)
+            sel = "numpy.dot(" in txt or "dots" in txt
+            cmp_ = _re.search(r"(<=|>=|<|>)", txt) is not None
+            ok = not (sel and cmp_ and "tol.merge" not in txt and "trimesh.constants.tol.merge" not in txt)
+            run.instance("R10", f.where, f"{f.qualname} -> {nm.split('.')[-1]}({targets[nm]}=`{txt[:70]}`)", ok)
+            if not ok:
+                run.violation("R10", f.where, f"`{f.qualname}` hands {nm.split('.')[-1]} a face subset chosen by exact comparison of plane distances (`{txt[:110]}`): "
+                                              f"the classifier treats |d| <= tol.merge as on the plane, so faces it would use are culled and the section has gaps",
+                              key=key_of("C11-R10", f.qualname, nm))
+    run.floor("in-repo calls of the plane routines", n10, 4)
 
 
 def _slice_cases(run, ix, rows):
